@@ -38,7 +38,7 @@ def generate(tier, seed):
             script = "p" + "".join(rnd.choice("ppprflh") for _ in range(n * 2))
             steps = list(obs)
             for _ in range(n):
-                steps += [rnd.choice(al)] + obs
+                steps += [pick_op(rnd, al, dom)] + obs
             cases.append(case("eng", sp, adapter_X(adapter_M(initial_lines(rnd, dom, True)), script), "-", steps))
             dist["random"] += 1
         # the string adapter rejects every incremental call
